@@ -76,6 +76,19 @@ def deduplicate_attrs(known, mapping):
     return variables | valmap(compose_left(second, first), attrs)
 
 
+def flatten_substructs(mapping):
+    # nested structs (e.g. platform_velocity: x, y, z) become one per-line variable per member
+    def _flatten():
+        for key, values in mapping.items():
+            if values and all(isinstance(value, dict) for value in values):
+                for name in values[0]:
+                    yield f"{key}_{name}", [value[name] for value in values]
+            else:
+                yield key, values
+
+    return dict(_flatten())
+
+
 def transform_line_metadata(metadata):
     ignored = [
         "preamble",
@@ -113,6 +126,7 @@ def transform_line_metadata(metadata):
         curry(starcall, curry(merge_with, list)),
         curry(remove_spares),
         curry(dissoc, ignored),
+        curry(flatten_substructs),
         curry(valmap, compose_left(separate_attrs, curry(cons, "rows"), tuple)),
         curry(deduplicate_attrs, known_attrs),
         curry(apply_overrides, dtype_overrides),
